@@ -1,4 +1,4 @@
-package main
+package fsdrv
 
 import (
 	"bufio"
@@ -41,20 +41,23 @@ type rkept struct {
 	untracked bool
 }
 
-type ref struct {
+// Ref is the flat reference: ONE tree of named paths; every `new` binds its id to the root of that
+// tree (whatever the kind), `view` to a base path inside it.  A family with several independent
+// backends in one history needs one Ref per tree or its own Model.
+type Ref struct {
 	nodes map[string]*rnode // key = segments joined by "/"; the root directory is implicit
 	views map[int][]string
 	slots map[int]*rkept
 	last  *rkept
 }
 
-func newRef() *ref {
-	return &ref{nodes: map[string]*rnode{}, views: map[int][]string{}, slots: map[int]*rkept{}}
+func NewRef() *Ref {
+	return &Ref{nodes: map[string]*rnode{}, views: map[int][]string{}, slots: map[int]*rkept{}}
 }
 
-// resolve walks a relative path spelling from the root of a view: "" and "." stay, ".." goes up,
+// Resolve walks a relative path spelling from the root of a view: "" and "." stay, ".." goes up,
 // leaving the root is an error.
-func resolve(raw string) ([]string, bool) {
+func Resolve(raw string) ([]string, bool) {
 	var cur []string
 	for _, s := range strings.Split(raw, "/") {
 		switch s {
@@ -73,7 +76,7 @@ func resolve(raw string) ([]string, bool) {
 
 func key(p []string) string { return strings.Join(p, "/") }
 
-func (r *ref) get(p []string) *rnode {
+func (r *Ref) get(p []string) *rnode {
 	if len(p) == 0 {
 		return &rnode{dir: true}
 	}
@@ -81,7 +84,7 @@ func (r *ref) get(p []string) *rnode {
 }
 
 // parentsOK: no proper prefix of p is a file
-func (r *ref) parentsOK(p []string) bool {
+func (r *Ref) parentsOK(p []string) bool {
 	for i := 1; i < len(p); i++ {
 		if n := r.nodes[key(p[:i])]; n != nil && !n.dir {
 			return false
@@ -90,13 +93,13 @@ func (r *ref) parentsOK(p []string) bool {
 	return true
 }
 
-func (r *ref) mkParents(p []string) {
+func (r *Ref) mkParents(p []string) {
 	for i := 1; i < len(p); i++ {
 		r.nodes[key(p[:i])] = &rnode{dir: true}
 	}
 }
 
-func (r *ref) hasChildren(p []string) bool {
+func (r *Ref) hasChildren(p []string) bool {
 	pre := key(p) + "/"
 	for k := range r.nodes {
 		if strings.HasPrefix(k, pre) {
@@ -106,7 +109,7 @@ func (r *ref) hasChildren(p []string) bool {
 	return false
 }
 
-func (r *ref) write(p []string, data []byte) string {
+func (r *Ref) write(p []string, data []byte) string {
 	if len(p) == 0 || !r.parentsOK(p) {
 		return "err"
 	}
@@ -118,7 +121,7 @@ func (r *ref) write(p []string, data []byte) string {
 	return "ok"
 }
 
-func (r *ref) mkdir(p []string) string {
+func (r *Ref) mkdir(p []string) string {
 	if !r.parentsOK(p) {
 		return "err"
 	}
@@ -132,7 +135,7 @@ func (r *ref) mkdir(p []string) string {
 	return "ok"
 }
 
-func (r *ref) remove(rel, p []string, all bool) string {
+func (r *Ref) remove(rel, p []string, all bool) string {
 	if len(rel) == 0 || len(p) == 0 {
 		return "err"
 	}
@@ -153,7 +156,7 @@ func (r *ref) remove(rel, p []string, all bool) string {
 	return "ok"
 }
 
-func (r *ref) copy(kind string, s, d []string) string {
+func (r *Ref) copy(kind string, s, d []string) string {
 	src := r.get(s)
 	if len(d) == 0 || src == nil || !r.parentsOK(d) || r.get(d) != nil {
 		return "err"
@@ -180,7 +183,7 @@ func (r *ref) copy(kind string, s, d []string) string {
 	return "ok"
 }
 
-func (r *ref) children(p []string) []string {
+func (r *Ref) children(p []string) []string {
 	pre := ""
 	if len(p) > 0 {
 		pre = key(p) + "/"
@@ -192,14 +195,14 @@ func (r *ref) children(p []string) []string {
 			if n.dir {
 				kind = "d"
 			}
-			items = append(items, hp(k[len(pre):])+":"+kind)
+			items = append(items, HP(k[len(pre):])+":"+kind)
 		}
 	}
 	sort.Strings(items)
 	return items
 }
 
-func (r *ref) dump(base []string) string {
+func (r *Ref) dump(base []string) string {
 	n := r.get(base)
 	if n == nil || !n.dir {
 		return "err"
@@ -221,15 +224,16 @@ func (r *ref) dump(base []string) string {
 	out := make([]string, len(ks))
 	for i, k := range ks {
 		if n := r.nodes[pre+k]; n.dir {
-			out[i] = hp(k) + "/"
+			out[i] = HP(k) + "/"
 		} else {
-			out[i] = hp(k) + "=" + hx.Enc(n.data)
+			out[i] = HP(k) + "=" + hx.Enc(n.data)
 		}
 	}
 	return "tree " + strings.Join(out, " ")
 }
 
-func readChunks(data []byte, sizes []int) string {
+// ReadChunks is the expected `rd …` answer of `reader` on a file with this content.
+func ReadChunks(data []byte, sizes []int) string {
 	if len(sizes) == 0 {
 		return "rd"
 	}
@@ -264,14 +268,14 @@ func lastChunk(data []byte, sizes []int) []byte {
 	return append([]byte{}, last...)
 }
 
-// line is the reference's answer to one protocol line (same syntax as the drivers).
-func (r *ref) line(f []string) string {
+// Line is the reference's answer to one protocol line (same syntax as the drivers).
+func (r *Ref) Line(f []string) string {
 	last := r.last
 	r.last = nil
 	num := func(s string) int { n, _ := strconv.Atoi(s); return n }
 	switch f[0] {
 	case "reset":
-		*r = *newRef()
+		*r = *NewRef()
 		return "ok"
 	case "new":
 		r.views[num(f[1])] = []string{}
@@ -281,7 +285,7 @@ func (r *ref) line(f []string) string {
 		if !ok {
 			return "nofs"
 		}
-		rel, good := resolve(string(hx.MustDec(f[3])))
+		rel, good := Resolve(string(hx.MustDec(f[3])))
 		if !good {
 			return "err"
 		}
@@ -339,7 +343,7 @@ func (r *ref) line(f []string) string {
 		return "nofs"
 	}
 	arg := func(i int) ([]string, []string, bool) {
-		rel, good := resolve(string(hx.MustDec(f[i])))
+		rel, good := Resolve(string(hx.MustDec(f[i])))
 		if !good {
 			return nil, nil, false
 		}
@@ -382,11 +386,11 @@ func (r *ref) line(f []string) string {
 		}
 		return r.copy(f[0], p, d)
 	case "isexist":
-		return tf(good && r.get(p) != nil)
+		return TF(good && r.get(p) != nil)
 	case "isfile":
-		return tf(good && r.get(p) != nil && !r.get(p).dir)
+		return TF(good && r.get(p) != nil && !r.get(p).dir)
 	case "isdir":
-		return tf(good && r.get(p) != nil && r.get(p).dir)
+		return TF(good && r.get(p) != nil && r.get(p).dir)
 	}
 	if !good {
 		return "err"
@@ -413,7 +417,7 @@ func (r *ref) line(f []string) string {
 		if len(sizes) > 0 {
 			r.last = &rkept{bytes: lastChunk(n.data, sizes)}
 		}
-		return readChunks(n.data, sizes)
+		return ReadChunks(n.data, sizes)
 	case "readdir":
 		if !n.dir {
 			return "err"
@@ -431,15 +435,15 @@ func (r *ref) line(f []string) string {
 			name = p[len(p)-1]
 		}
 		if n.dir {
-			return "stat " + hp(name) + " d"
+			return "stat " + HP(name) + " d"
 		}
-		return fmt.Sprintf("stat %s f %d", hp(name), len(n.data))
+		return fmt.Sprintf("stat %s f %d", HP(name), len(n.data))
 	}
 	return "bad-op"
 }
 
-// canonical form for the comparison with the reference: listings as sets
-func canon(res string) string {
+// Canon: canonical form for the comparison with the reference: listings as sets
+func Canon(res string) string {
 	if strings.HasPrefix(res, "list ") {
 		items := strings.Split(res[5:], ",")
 		sort.Strings(items)
@@ -448,20 +452,26 @@ func canon(res string) string {
 	return res
 }
 
-// compareHistory runs one history against the real code and the reference side by side.
+// CompareHistory runs one history against the real code and the reference side by side.
 // A verdict difference (ok/err only) is recorded and the run continues (a later value difference
 // shows whether the disagreement became visible in the tree); a value difference ends the run:
 // the two sides have diverged and the rest says nothing new.
-type failure struct {
-	class, op, want, got string
-	line                 int
+type Failure struct {
+	Class, Op, Want, Got string
+	Line                 int
 }
 
-func compareHistory(impl *session, model *ref, hist []string, checked map[string]int) (fails []failure, lines int) {
+// Model is anything that answers protocol lines the way the implementation should (`skip`: no
+// expectation for this line).  *Ref is one.
+type Model interface {
+	Line(f []string) string
+}
+
+func CompareHistory(impl *Session, model Model, hist []string, checked map[string]int) (fails []Failure, lines int) {
 	for k, l := range hist {
 		f := strings.Split(l, " ")
-		got := canon(impl.line(f))
-		want := model.line(f)
+		got := Canon(impl.Line(f))
+		want := model.Line(f)
 		lines++
 		if checked != nil {
 			checked[f[0]]++
@@ -470,51 +480,56 @@ func compareHistory(impl *session, model *ref, hist []string, checked map[string
 			continue
 		}
 		if (got == "ok" || got == "err") && (want == "ok" || want == "err") {
-			fails = append(fails, failure{"verdict", l, want, got, k})
+			fails = append(fails, Failure{"verdict", l, want, got, k})
 			continue
 		}
-		fails = append(fails, failure{"value", l, want, got, k})
+		fails = append(fails, Failure{"value", l, want, got, k})
 		break
 	}
 	return fails, lines
 }
 
-func reportFails(w *bufio.Writer, hist []string, fails []failure) {
+func ReportFails(w *bufio.Writer, hist []string, fails []Failure) {
 	last := 0
 	for _, f := range fails {
-		fmt.Fprintf(w, "FAIL %s line=%d op=%s want=%s got=%s\n", f.class, f.line, f.op, trunc(f.want), trunc(f.got))
-		last = f.line
+		fmt.Fprintf(w, "FAIL %s line=%d op=%s want=%s got=%s\n", f.Class, f.Line, f.Op, trunc(f.Want), trunc(f.Got))
+		last = f.Line
 	}
 	for _, h := range hist[:last+1] {
 		fmt.Fprintf(w, "H %s\n", h)
 	}
 }
 
-func oracle(w *bufio.Writer, n, shard, nshards int) {
+// OracleSeed is the seed of shard `shard` of the `oracle` stream for the current VERIF_SEED.
+func OracleSeed(shard int) uint64 {
+	return (hx.SeedFromEnv()*1000003 + uint64(shard)*104729) ^ 0x5eed
+}
+
+// Oracle is `fs oracle <n> [<shard> <nshards>]` (C01 generator against *Ref).
+func Oracle(w *bufio.Writer, n, shard, nshards int) {
 	var buf bytes.Buffer
 	bw := bufio.NewWriter(&buf)
-	seed := (hx.SeedFromEnv()*1000003 + uint64(shard)*104729) ^ 0x5eed
-	g := &histGen{r: hx.NewRand(seed), w: bw, count: map[string]int{}}
-	impl := newSession()
-	model := newRef()
+	g := NewHistGen(hx.NewRand(OracleSeed(shard)), bw)
+	impl := NewSession()
+	model := NewRef()
 	nfail, lines, checked := 0, 0, map[string]int{}
 	hists := 0
 	for i := shard; i < n; i += nshards {
 		buf.Reset()
-		g.history()
+		g.History()
 		bw.Flush()
 		hists++
 		hist := strings.Split(strings.TrimRight(buf.String(), "\n"), "\n")
-		fails, k := compareHistory(impl, model, hist, checked)
+		fails, k := CompareHistory(impl, model, hist, checked)
 		lines += k
 		if len(fails) > 0 {
 			nfail++
 			if nfail <= 3 {
-				reportFails(w, hist, fails)
+				ReportFails(w, hist, fails)
 			}
 		}
 	}
-	impl.reset()
+	impl.Reset()
 	var cs []string
 	for k, v := range checked {
 		cs = append(cs, fmt.Sprintf("%s=%d", k, v))
@@ -523,10 +538,10 @@ func oracle(w *bufio.Writer, n, shard, nshards int) {
 	fmt.Fprintf(w, "oracle histories=%d cases=%d fails=%d %s\n", hists, lines, nfail, strings.Join(cs, " "))
 }
 
-// refcheck: op lines on stdin (one or more histories) against the reference; same FAIL format.
-func refcheck(in *bufio.Scanner, w *bufio.Writer) {
-	impl := newSession()
-	model := newRef()
+// Refcheck: op lines on stdin (one or more histories) against the reference; same FAIL format.
+func Refcheck(in *bufio.Scanner, w *bufio.Writer) {
+	impl := NewSession()
+	model := NewRef()
 	var hist []string
 	for in.Scan() {
 		l := in.Text()
@@ -535,11 +550,11 @@ func refcheck(in *bufio.Scanner, w *bufio.Writer) {
 		}
 		hist = append(hist, l)
 	}
-	fails, lines := compareHistory(impl, model, hist, nil)
+	fails, lines := CompareHistory(impl, model, hist, nil)
 	if len(fails) > 0 {
-		reportFails(w, hist, fails)
+		ReportFails(w, hist, fails)
 	}
-	impl.reset()
+	impl.Reset()
 	fmt.Fprintf(w, "refcheck cases=%d fails=%d\n", lines, len(fails))
 }
 
@@ -550,7 +565,8 @@ func trunc(s string) string {
 	return s
 }
 
-func printCounts(w *bufio.Writer, tag string, m map[string]int) {
+// PrintCounts prints `<tag> k=v …` sorted by key.
+func PrintCounts(w *bufio.Writer, tag string, m map[string]int) {
 	var ks []string
 	for k := range m {
 		ks = append(ks, k)
